@@ -97,8 +97,10 @@ async fn run(mut sim: Sim, _seed: u64) -> Result<Value, String> {
         settle(&mut sim, ms).await;
         let mut a = sim.rng.gen_range(0..dialers);
         let mut b = sim.rng.gen_range(0..n);
-        let mut op = sim.rng.gen_range(0..14);
-        if op >= 11 {
+        let mut op = sim.rng.gen_range(0..17);
+        if op >= 14 {
+            op = 12;
+        } else if op >= 11 {
             op = 11;
             if !high_dead.is_empty() {
                 (a, b) = high_dead[sim.rng.gen_range(0..high_dead.len())];
@@ -204,6 +206,18 @@ async fn run(mut sim: Sim, _seed: u64) -> Result<Value, String> {
                 settle(&mut sim, cto + interval + 60).await;
                 sim.disconnect(b, sim.peer_id(a));
                 settle(&mut sim, 30).await;
+            }
+            12 if sim.nodes[a].net.is_some() => {
+                // a connection that a background dial has just made is dropped again before the next
+                // connectivity check has looked at that dial's result: the peer is dialed at that check
+                let now = sim.run.now_ms();
+                let next_tick = (now / interval + 1) * interval;
+                sim.sleep_ms(next_tick - now + 120).await;
+                let peers = sim.net(a).peers();
+                if let Some(p) = peers.first() {
+                    sim.disconnect(a, *p);
+                }
+                settle(&mut sim, 20).await;
             }
             _ => {
                 sim.obs_all_peers();
